@@ -11,7 +11,18 @@
 (T) code -> spec: every output of the implementation is recorded and validated by Trace_GF2.tla BY SUBSTITUTION against the
     brute-force definitions (a returned x must satisfy A x = b, a returned RREF must be reduced and span the same row space,
     a returned basis must span the column space and be independent, kernel vectors must be annihilated and span the kernel).
+(C) the systems the CONSUMERS of the library pose (anchors qchem/tapering.py, transforms/intermediate_reps/rowcol.py) are part
+    of the model: GF2.tla defines the symmetry group of a Hamiltonian (rows (x|z), symplectic form) and the RowCol row
+    selection (rows of a regular P whose sum is e_i) by brute force; GF2Gen checks that the elimination read-offs (kernel
+    basis with the halves exchanged; row i of T = A^-1) agree with them and emits them.  Every enumerated matrix of even
+    width is turned into a Hamiltonian and replayed through qchem.symmetry_generators; every regular square matrix is
+    replayed through rowcol._get_S (row mode) for every unit vector and every insertion order of the connectivity graph's
+    nodes, also embedded into a larger matrix with removed nodes; and seeded CNOT circuits are routed by
+    qp.transforms.rowcol on seeded connectivity graphs (shuffled node order, default None) while every row selection made
+    inside is recorded.  All of these outputs are validated by Trace_GF2 (symgen / rowsel events).
 """
+import importlib
+import itertools
 import json
 import random
 import time
@@ -25,7 +36,7 @@ from ..lib import CheckResult, Violation
 
 PID = "C50"
 CHUNK = 6000
-INVARIANTS = ["PrepOK", "StepInv", "RrefAgree", "RankAgree", "SolveAgree", "KernelAgree", "GreedyAgree"]
+INVARIANTS = ["PrepOK", "StepInv", "RrefAgree", "RankAgree", "SolveAgree", "KernelAgree", "GreedyAgree", "SymAgree", "RowSelAgree"]
 
 
 def _kernel_fn():
@@ -34,6 +45,79 @@ def _kernel_fn():
         return _kernel
     except Exception:  # private helper: absent -> the kernel events are skipped (counted)
         return None
+
+
+def _symgen_fn():
+    try:
+        return qp.qchem.symmetry_generators
+    except Exception:
+        return None
+
+
+def _rowcol_mod():
+    """the rowcol MODULE (the package attribute of the same name is the transform) or None when it has no _get_S"""
+    try:
+        mod = importlib.import_module("pennylane.transforms.intermediate_reps.rowcol")
+        return mod if callable(getattr(mod, "_get_S", None)) else None
+    except Exception:
+        return None
+
+
+_LETTER = {(1, 0): "X", (1, 1): "Y", (0, 1): "Z"}
+
+
+def hamiltonian_of(rows, q):
+    """The Hamiltonian whose terms are the Pauli words (x|z) given by the rows (zero row = identity term); None when some
+    qubit is not acted on (the same Hamiltonian is enumerated with fewer qubits)."""
+    if not rows or any(all(r[w] == 0 and r[q + w] == 0 for r in rows) for w in range(q)):
+        return None
+    ops = []
+    for r in rows:
+        word = {w: _LETTER[(r[w], r[q + w])] for w in range(q) if (r[w], r[q + w]) != (0, 0)}
+        ops.append(qp.pauli.PauliWord(word).operation() if word else qp.Identity(0))
+    return qp.ops.LinearCombination([1.0] * len(ops), ops)
+
+
+def words_of(gens, q):
+    """generators (operators) -> rows (x|z); raises when a generator is not a single Pauli word on wires 0..q-1"""
+    out = []
+    for g in gens:
+        ps = qp.pauli.pauli_sentence(g)
+        (pw,) = list(ps)
+        v = [0] * (2 * q)
+        for w, letter in pw.items():
+            if not (isinstance(w, (int, np.integer)) and 0 <= int(w) < q):
+                raise ValueError("wire")
+            v[int(w)] = 1 if letter in "XY" else 0
+            v[q + int(w)] = 1 if letter in "ZY" else 0
+        out.append(v)
+    return out
+
+
+def rowsel_event(getS, P, idx, order):
+    """_get_S(P, idx, <nodes of a graph whose nodes were inserted in `order`>, "row") -> (event, returned set or None)"""
+    import networkx as nx
+    k = len(P)
+    G = nx.Graph()
+    G.add_nodes_from(order)
+    S, exc = _call(getS, np.array(P, dtype=np.int64).reshape(k, k), idx, G.nodes(), "row")
+    return _rowsel_ev(P, idx, order, S, exc), S
+
+
+def _rowsel_ev(P, idx, nodes, S, exc):
+    k = len(P)
+    nd = [[1 if j in set(nodes) else 0 for j in range(k)]]
+    kw = dict(inp=[[int(v) for v in r] for r in P], im=k, val=idx + 1, out2=nd, o2m=1)
+    if exc:
+        return _ev("rowsel", exc=exc, **kw)
+    try:
+        el = sorted(int(j) for j in S)
+        ok = all(0 <= j < k for j in el) and len(el) == len(set(S))
+    except Exception:
+        ok = False
+    if not ok:
+        return _ev("rowsel", om=-1, on=-1, **kw)
+    return _ev("rowsel", out=[[1 if j in el else 0 for j in range(k)]], om=1, on=k, **kw)
 
 
 def tla_mat(A):
@@ -116,7 +200,157 @@ class Agg:
         return [Violation(key=k, detail=f"{d} [{c} failing case(s); first shown]", replay=r) for k, (c, d, r) in sorted(self.d.items())]
 
 
-def exercise(case, kernel, agg, stats, expect=True):
+def node_orders(k, rng):
+    """insertion orders of the nodes 0..k-1: all of them for k <= 3, else ascending, descending and seeded shuffles"""
+    if k <= 3:
+        return [list(p) for p in itertools.permutations(range(k))]
+    out = [list(range(k)), list(range(k))[::-1]]
+    for _ in range(4):
+        o = list(range(k))
+        rng.shuffle(o)
+        out.append(o)
+    return out
+
+
+def exercise_consumers(case, events, agg, stats, expect, symgen, rcmod, rng):
+    """The GF(2) systems as the consumers pose them: qchem.symmetry_generators on the Hamiltonian whose terms are the rows
+    (x|z) of the matrix, and rowcol._get_S (row mode) on the matrix when it is square."""
+    m, n = case["m"], case["n"]
+    rep = {"m": m, "n": n, "A": case["A"]}
+    # ---- symmetry generators (tapering): even width, every qubit acted on
+    if symgen is not None and n > 0 and n % 2 == 0 and m > 0:
+        q = n // 2
+        H = hamiltonian_of(case["A"], q)
+        if H is None:
+            stats["symgen_skipped_idle_qubit"] += 1
+        else:
+            gens, exc_g = _call(symgen, H)
+            rows = None
+            if exc_g == "":
+                try:
+                    rows = words_of(gens, q)
+                    events.append(_ev("symgen", out=rows, om=len(rows), on=n))
+                except Exception as e:
+                    events.append(_ev("symgen", exc="malformed-output:" + type(e).__name__))
+            else:
+                events.append(_ev("symgen", exc=exc_g))
+            stats["symgen_calls"] += 1
+            if expect:
+                stats["symgen_rank_deficient"] += case["rank"] < m
+                if rows is None or len(rows) != len(case["sym"]):
+                    agg.add("symgen:replay-count-differs-from-spec",
+                            f"symmetry_generators(H), terms (x|z) = {case['A']}: {len(rows) if rows is not None else exc_g or 'malformed'} generators, "
+                            f"the symmetry group has dimension {len(case['sym'])}",
+                            dict(rep, fn="qchem.symmetry_generators", expected=case["sym"], got=rows if rows is not None else exc_g))
+                elif sorted(rows) != sorted(case["sym"]):
+                    stats["symgen_basis_differs_from_model"] += 1
+    # ---- RowCol row selection: square matrices (REPLAY on the regular ones; singular ones only without expected values)
+    if rcmod is not None and m == n and n >= 1 and (not expect or case["inv"]):
+        getS = rcmod._get_S
+        A = case["A"]
+        for idx in range(n):
+            want = None
+            if expect:
+                want = {j for j in range(n) if case["inv"][idx][j]} | {idx}
+                stats["rowsel_replayed_nontrivial"] += len(want) > 1
+            for order in node_orders(n, rng):
+                ev, S = rowsel_event(getS, A, idx, order)
+                events.append(ev)
+                stats["rowsel_calls"] += 1
+                stats["rowsel_unsorted_order"] += order != sorted(order)
+                if expect and (ev["exc"] or ev["om"] != 1 or set(int(j) for j in S) != want):
+                    agg.add("rowsel:replay-differs-from-spec",
+                            f"rowcol._get_S(P={A}, {idx}, nodes inserted as {order}, 'row') = {ev['exc'] or sorted(int(j) for j in S)}, "
+                            f"the rows of P whose sum is e_{idx} are {sorted(want)}",
+                            dict(rep, fn="rowcol._get_S", idx=idx, node_order=order, expected=sorted(want), got=ev["exc"] or sorted(int(j) for j in S)))
+            # the same system with removed nodes: P embedded into a larger matrix that is trivial on the removed nodes
+            if n <= 5:
+                N = n + rng.randint(1, 2)
+                pos = sorted(rng.sample(range(N), n))
+                P2 = np.eye(N, dtype=np.int64)
+                P2[np.ix_(pos, pos)] = np.array(A, dtype=np.int64).reshape(n, n)
+                order = list(pos)
+                rng.shuffle(order)
+                ev, _ = rowsel_event(getS, P2.tolist(), pos[idx], order)
+                events.append(ev)
+                stats["rowsel_calls"] += 1
+                stats["rowsel_embedded_calls"] += 1
+
+
+def rowcol_runs(rcmod, rng, count, stats):
+    """qp.transforms.rowcol on seeded CNOT circuits and connectivity graphs; every row selection made inside (the module's
+    _get_S is wrapped) is recorded as a rowsel event.  One trace per run.  Only the row selections are judged."""
+    import networkx as nx
+    traces = []
+    orig = rcmod._get_S
+    for run in range(count):
+        if run == 0:  # the example of the rowcol docstring
+            n, edges, mode = 5, [(0, 3), (1, 2), (2, 3), (3, 4)], "edges"
+            cn = [(i, i + 1) for i in range(4)] + [(0, 4), (3, 0), (0, 2), (3, 1), (2, 4)]
+        else:
+            n0 = rng.randint(3, 6)
+            raw = [tuple(rng.sample(range(n0), 2)) for _ in range(rng.randint(n0, 3 * n0))]
+            first = []
+            for c, t in raw:
+                for w in (c, t):
+                    if w not in first:
+                        first.append(w)
+            cn = [(first.index(c), first.index(t)) for c, t in raw]   # wires relabelled in order of first use: tape.wires = 0..n-1
+            n = len(first)
+            labels = list(range(n))
+            rng.shuffle(labels)
+            edges = [(labels[i], labels[rng.randrange(i)]) for i in range(1, n)]          # a random spanning tree
+            edges += [e for e in itertools.combinations(range(n), 2) if rng.random() < 0.15 and e not in edges and e[::-1] not in edges]
+            rng.shuffle(edges)
+            mode = rng.choice(["edges", "shuffled", "shuffled", "ascending", "none"])
+        if mode == "none":
+            G = None
+        else:
+            G = nx.Graph()
+            if mode == "shuffled":
+                nodes = list(range(n))
+                rng.shuffle(nodes)
+                G.add_nodes_from(nodes)
+            elif mode == "ascending":
+                G.add_nodes_from(range(n))
+            G.add_edges_from(edges)
+        P_in = np.eye(n, dtype=np.int64)
+        for c, t in cn:
+            P_in[t] ^= P_in[c]
+        events = []
+
+        def wrapper(P, idx, node_set, mode_, _events=events):
+            if mode_ != "row":
+                stats["rowcol_column_selections"] += 1
+                return orig(P, idx, node_set, mode_)
+            Pm = np.asarray(P).copy()
+            if ((Pm != 0) & (Pm != 1)).any():
+                stats["rowsel_unreduced_input"] += 1
+            Pm = (Pm % 2).astype(np.int64).tolist()
+            nodes = [int(v) for v in node_set]
+            try:
+                S = orig(P, idx, node_set, mode_)
+            except Exception as e:
+                _events.append(_rowsel_ev(Pm, int(idx), nodes, None, type(e).__name__))
+                raise
+            _events.append(_rowsel_ev(Pm, int(idx), nodes, S, ""))
+            stats["rowsel_in_rowcol"] += 1
+            stats["rowsel_in_rowcol_unsorted_nontrivial"] += nodes != sorted(nodes) and len(S) > 1
+            return S
+        rcmod._get_S = wrapper
+        try:
+            tape = qp.tape.QuantumScript([qp.CNOT(w) for w in cn])
+            _, exc = _call(lambda: qp.transforms.rowcol(tape, connectivity=G))
+        finally:
+            rcmod._get_S = orig
+        stats["rowcol_runs"] += 1
+        if exc:
+            stats["rowcol_raised:" + exc] += 1
+        traces.append({"m": n, "n": n, "A": P_in.tolist(), "events": events})
+    return traces
+
+
+def exercise(case, kernel, agg, stats, expect=True, symgen=None, rcmod=None, rng=None):
     """Run the implementation on one matrix.  Returns the trace (events).  With expect=True, `case` carries the values TLC
     computed (rref, rank, piv, sols) and the property-level ones are compared here (REPLAY)."""
     m, n = case["m"], case["n"]
@@ -206,6 +440,7 @@ def exercise(case, kernel, agg, stats, expect=True):
             else:
                 events.append(_ev("kernel", exc=exc_k, inp=ir, im=im))
             stats["kernel_calls"] += 1
+    exercise_consumers(case, events, agg, stats, expect, symgen, rcmod, rng)
     return {"m": m, "n": n, "A": case["A"], "events": events}
 
 
